@@ -8,6 +8,10 @@ package main
 // `id <op> lit` and `name <op> lit` are run through Store.QueryIds (the text is exactly
 // `id = "..."` etc., nothing else, so that any pre-parser shortcut of the store is on the path);
 // output = membership bits of the values in the two answers.
+//
+//	c <op> <lit> <s> <lit2> <s2> <value>...
+//
+// the same with a second, neighbouring literal queried afterwards on the same store object.
 
 import (
 	"os"
@@ -42,9 +46,17 @@ func c11BoltFilter(sym, op, lit string) string {
 }
 
 func c11ExecBolt(f []string) string {
-	op, lit := f[1], fromWire(f[2])
+	op := f[1]
+	lits := []string{fromWire(f[2])}
+	first := 4
+	if f[0] == "c" {
+		// c <op> <lit> <s> <lit2> <s2> <value>...: the two filters are run one after the other on the SAME store
+		// object (anything the store remembers between queries - a compiled-query cache, say - is on the path)
+		lits = append(lits, fromWire(f[4]))
+		first = 6
+	}
 	var vals []string
-	for _, w := range f[4:] {
+	for _, w := range f[first:] {
 		vals = append(vals, fromWire(w))
 	}
 	dir, err := os.MkdirTemp("", "verif-*")
@@ -76,6 +88,7 @@ func c11ExecBolt(f []string) string {
 		return "write-error"
 	}
 	var out []string
+	for _, lit := range lits {
 	for _, sym := range []string{"id", "name"} {
 		var ids []string
 		err = db.View(func(tx *bbolt.Tx) error {
@@ -103,6 +116,7 @@ func c11ExecBolt(f []string) string {
 			b.WriteString("+dup")
 		}
 		out = append(out, b.String())
+	}
 	}
 	return strings.Join(out, " ")
 }
